@@ -15,11 +15,11 @@ RULE = ('Cases (a, relative rotation of angle t about a random axis, left/right 
         'exactly 0 and exactly pi. All seven metrics (chordal, identity_deviation, angular_distance on matrices built with the '
         'own q->R; qdist, qeip, qcip, qad on quaternions, single and N-row, N<=6) are checked for: non-negativity, symmetry, '
         'd(a,a)~0, d>0 for t>=1e-4, invariance under q->-q, bi-invariance d(gah,gbh)=d(a,b), the closed form in t, N-row = '
-        'single row by row, and the triangle inequality on (a,b,c) for the six true metrics (not qeip). Non-trivial: t<1e-2 or '
+        'single row by row (also with the two stacks held by the caller and handed in three times, swapped in between), and the triangle inequality on (a,b,c) for the six true metrics (not qeip). Non-trivial: t<1e-2 or '
         't>3 or N>=2; distinct = case hash.')
 ASSUMPTIONS = ['1e-9 tolerance for the well-conditioned forms; arccos-based forms (qcip, qad) get 1e-9 + 2e-15/t + min(1e-7, 2e-15/(pi-t))',
                'qeip is not a metric (1-cos is not subadditive): its triangle inequality is deliberately not asserted']
-REQUIRED_LABELS = ['metrics:t=tiny', 'metrics:t=near_pi', 'metrics:t=exact_pi', 'metrics:t=zero', 'metrics:N>=2']
+REQUIRED_LABELS = ['metrics:held_arrays', 'metrics:t=tiny', 'metrics:t=near_pi', 'metrics:t=exact_pi', 'metrics:t=zero', 'metrics:N>=2']
 PI = math.pi
 
 
@@ -191,6 +191,22 @@ def evaluate(case, ctx):
                     ref = closed_forms(T[i][1])['chordal']
                     if not abs(D[i] - ref) <= 1e-9:
                         ctx.fail('chordal[N]|closed_form', f'row {i}: {D[i]!r} expected {ref!r}')
+
+        # the same stacks held by the caller and handed in again, swapped: the symmetric value (closed form) once more.  A metric
+        # that works in its arguments' storage answers the first call correctly and the next one from the leftovers.
+        HA, HB = np.array(RA), np.array(RB)
+        HQA, HQB = np.array(QA, dtype=float), np.array(QB, dtype=float)
+        ctx.label('held_arrays')
+        for name, X, Y in [('chordal', HA, HB)] + [(nm, HQA, HQB) for nm in QUAT]:
+            for rnd, (U, V) in enumerate([(X, Y), (Y, X), (X, Y)]):
+                ok, D = ctx.call(f'{name}[N,held]', lambda: np.asarray(getattr(M, name)(U, V), dtype=float))
+                if not ok or D.shape != (n,):
+                    break
+                bad = [i for i in range(n) if not abs(D[i] - closed_forms(T[i][1])[name]) <= max(1e-9, tol_for(name, T[i][1]) if T[i][0] != 'zero' else 1e-7)]
+                if bad:
+                    i = bad[0]
+                    ctx.fail(f'{name}[N,held]|closed_form_on_call_{rnd + 1}_with_the_same_arrays', f'row {i}: {D[i]!r} expected {closed_forms(T[i][1])[name]!r}')
+                    break
 
 
 def selftest():
